@@ -614,6 +614,22 @@ func (fv *FnV) binop(st *State, op token.Token, a, b Val, ty types.Type, n ast.N
 	if op == token.SHL || op == token.SHR {
 		opTy = a.Ty
 	}
+	if isFloatType(opTy) && fv.fround && !fv.spec && (op == token.ADD || op == token.SUB || op == token.MUL || op == token.QUO) {
+		sym := map[token.Token]string{token.ADD: "+", token.SUB: "-", token.MUL: "*", token.QUO: "/"}[op]
+		if op == token.QUO {
+			fv.floatDivs = append(fv.floatDivs, b.T)
+		}
+		exact := fmt.Sprintf("(%s %s %s)", sym, a.T, b.T)
+		_, la := parseRealLit(a.T)
+		_, lb := parseRealLit(b.T)
+		if la && lb {
+			return Val{exact, ty}
+		}
+		r := fv.fresh("fr", "Real")
+		e := fv.fresh("fe", "Real")
+		fv.decls = append(fv.decls, fmt.Sprintf("(assert (and (= %s (* %s (+ 1.0 %s))) (<= (- (/ 1.0 9007199254740992.0)) %s) (<= %s (/ 1.0 9007199254740992.0))))", r, exact, e, e, e))
+		return Val{r, ty}
+	}
 	if isFloatType(opTy) {
 		fv.tag("float-as-real")
 		switch op {
@@ -675,6 +691,22 @@ func parseIntLit(s string) (*big.Int, bool) {
 		bi.Neg(bi)
 	}
 	return bi, true
+}
+
+// parseRealLit recognises a numeric SMT literal (constant folding of float constants is exact in Go)
+func parseRealLit(s string) (string, bool) {
+	s = strings.TrimSpace(s)
+	s = strings.TrimPrefix(s, "(- ")
+	s = strings.TrimSuffix(s, ")")
+	if s == "" {
+		return "", false
+	}
+	for _, c := range s {
+		if !(c >= '0' && c <= '9') && c != '.' {
+			return "", false
+		}
+	}
+	return s, true
 }
 
 func tdiv(a, b string) string {
